@@ -21,6 +21,11 @@ Strings travel as decimal code points joined by `.` (`-` is the empty string), a
   (`getAtRoot (parse false [] source) path`: a node taken out of an argument, a group, an
   `\item` of another document); `c:<path>` = a copy of the node at `path` of the document as
   it is when the op is reached (`node.copy()`; a subtree is a value, so this is that value).
+  `d:<encoded source>` = a whole parsed document handed in as one piece (`TexSoup(source)`
+  itself).  The implementation nests its root as one element, which prints as its contents;
+  the tree type of the model has no such node, so the model splices the elements of the
+  document in its place: same serialisation, other tree - after a step with `d:` material only
+  the serialisations are comparable (the harness uses it in the last step only).
   Lists of material are joined by `,`; the empty list is `_`.  An op whose material cannot be
   resolved (no such path) is answered `FAIL`, like an op the model rejects.
 * **Ops**
@@ -38,7 +43,11 @@ Strings travel as decimal code points joined by `.` (`-` is the empty string), a
     `ins i M`, `pop i`, `rem i` (`args.remove(args[i])`), `rev`, `clr`, `rs` (`args = args[::-1]`),
     `sl i j` (`args = args[i:j]`), `perm i,j,..` (`_` = empty), and the self-assignment forms
     `same`, `srev`, `spop i`, `sins i M`, `sapp M` (`a = node.args; ..; node.args = a`).  Indices
-    may be negative (`-3`).  Here `s:<encoded string>` is an unparsed argument string that
+    may be negative (`-3`), slice bounds may be omitted (`_`).  Kept slices (a slice is a copy):
+    `ks lo hi <in-place op>` = `keep = args[lo:hi]; <op on args>; args = keep` with the op one of
+    `rev`, `clr`, `pop i`, `ins i M`, `app M`, `set i M` (`args[i] = M`);
+    `kc lo hi <op>` = `keep = args[lo:hi]; <op on keep>` (the node keeps its list) and
+    `kca lo hi <op>` = the same followed by `args = keep`, with the op `pop i` or `rev`.  Here `s:<encoded string>` is an unparsed argument string that
     `TexArgs` turns into a group (`{z}`, `[w]`; whitespace is kept out of the list; anything
     else raises), other material must be a group or a command to enter the list.
 
@@ -121,8 +130,18 @@ def parseMat (doc : List Expr) (w : String) : Option Expr :=
     | none => none
   else none
 
+/-- One piece of material: one element, or (`d:`) the elements of a whole document. -/
+def parsePiece (doc : List Expr) (w : String) : Option (List Expr) :=
+  if w.startsWith "d:" then
+    match decStr (w.drop 2).toString with
+    | some s => match parse false [] s with
+      | .ok es => some es
+      | .error _ => none
+    | none => none
+  else (parseMat doc w).map (fun e => [e])
+
 def parseMats (doc : List Expr) (w : String) : Option (List Expr) :=
-  if w == "_" then some [] else (w.splitOn ",").mapM (parseMat doc)
+  if w == "_" then some [] else ((w.splitOn ",").mapM (parsePiece doc)).map List.flatten
 
 def parseInt (w : String) : Option Int :=
   if w.startsWith "-" then (w.drop 1).toNat?.map (fun n => -(n : Int)) else w.toNat?.map (fun n => (n : Int))
@@ -143,6 +162,10 @@ def parseArgMats (doc : List Expr) (w : String) : Option (List Expr) :=
   if w == "_" then some [] else
     ((w.splitOn ",").mapM (parseArgMat doc)).map (fun l => l.filterMap id)
 
+/-- A slice bound: `_` = omitted. -/
+def parseBound (w : String) : Option (Option Int) :=
+  if w == "_" then some none else (parseInt w).map some
+
 def parseListOp (doc : List Expr) : List String → Option ListOp
   | ["app", m] | ["sapp", m] => (parseArgMats doc m).map ListOp.extend
   | ["ext", m] => (parseArgMats doc m).map ListOp.extend
@@ -155,10 +178,22 @@ def parseListOp (doc : List Expr) : List String → Option ListOp
   | ["rev"] | ["srev"] | ["rs"] => some .reverse
   | ["clr"] => some .clear
   | ["same"] => some .same
-  | ["sl", i, j] => match parseInt i, parseInt j with
+  | ["sl", i, j] => match parseBound i, parseBound j with
     | some i, some j => some (.slice i j)
     | _, _ => none
   | ["perm", idx] => if idx == "_" then some (.perm []) else ((idx.splitOn ",").mapM (fun (x : String) => x.toNat?)).map ListOp.perm
+  | ["set", i, m] => match parseInt i, parseArgMat doc m with
+    | some i, some (some e) => some (.set i e)
+    | _, _ => none
+  | "ks" :: lo :: hi :: rest => match parseBound lo, parseBound hi, parseListOp doc rest with
+    | some lo, some hi, some g => some (.guard g (.slice lo hi))
+    | _, _, _ => none
+  | "kc" :: lo :: hi :: rest => match parseBound lo, parseBound hi, parseListOp doc rest with
+    | some lo, some hi, some k => some (.guard (.within lo hi k) .same)
+    | _, _, _ => none
+  | "kca" :: lo :: hi :: rest => match parseBound lo, parseBound hi, parseListOp doc rest with
+    | some lo, some hi, some k => some (.within lo hi k)
+    | _, _, _ => none
   | _ => none
 
 def parseOp (doc : List Expr) (w : String) : Option EditOp :=
